@@ -21,3 +21,8 @@ def is_ident(s):
 
 def implies(a, b):
     return (not a) or b
+
+
+def prefix(lst, k):
+    """the first k elements (0 <= k <= len)"""
+    return lst[:k]
